@@ -36,10 +36,10 @@
     at any time (a superset of the real schedules; a spurious round changes
     nothing that is delivered).
 
-    [fx] switches the candidate repair (work/C32/fix2.diff): runTask marks the
+    [fx] switches the repair (work/C32/fix2.diff, applied to /repo): runTask marks the
     pushNotify running before it spawns (under the caller's push.mu), and the
     deactivation writes status notRunning and deletes the entry (when it still
-    is its own pushNotify) in one critical section.  The unchanged code is [fx = false]. *)
+    is its own pushNotify) in one critical section.  The code before the repair is [fx = false]; /repo is [fx = true]. *)
 From Coq Require Import List ZArith Bool.
 From C33 Require Import C32.Model.
 Import ListNotations.
@@ -306,10 +306,9 @@ Fixpoint yrun (fx : bool) (c : cfg) (st : store) (y : sys) (es : list yev) : sys
   | e :: tl => yrun fx c st (fst (ystep fx c st y e)) tl
   end.
 
-(** The code in /repo as it is now: the repair is not applied.  (Check.v runs
-    the transition system with this switch; whoever applies work/C32/fix2.diff
-    sets it to [true].) *)
-Definition code_fx : bool := false.
+(** The code in /repo as it is now: the repair (work/C32/fix2.diff) is applied.
+    Check.v runs the transition system with this switch. *)
+Definition code_fx : bool := true.
 
 (** * Classes of goroutines *)
 (** Can still call PostData. *)
